@@ -14,7 +14,7 @@ EVID = os.path.join(ROOT, "evidence")
 KNOWN = os.path.join(ROOT, "known_findings.json")
 
 BASE_TRUST = [
-    "pyvc (this repository's VC generator: /verif/pyvc) - its encoding of the Python subset is trusted; cross-checked against CPython by checks/selftest.py",
+    "pyvc (this repository's VC generator: /verif/pyvc) - its encoding of the Python subset is trusted; guarded by falsehood probes (checks/selftest.py: false clauses must stay unproved) and by native evaluation of proved contracts on concrete calls (checks/crosscheck.py, checks/runtime.py)",
     "z3 5.1.0 (z3-solver wheel) and cvc5 1.0.3 as decision procedures",
     "Python int = mathematical integer (exact); str = finite sequence of code points; dict = finite map with arbitrary iteration order",
     "TypeErrors excluded by the parameter types declared in the contracts (dynamic typing is not verified)",
@@ -32,6 +32,31 @@ def load_known():
         return {"findings": [], "fixed": []}
     with open(KNOWN) as f:
         return json.load(f)
+
+
+def engine_selftest():
+    """falsehood probes of the VC generator (checks/selftest.py), once per version of the generator: a false clause that gets
+    proved means nothing the generator says can be believed -> the check stops as a checker crash (exit 3)"""
+    import glob
+    import subprocess
+    h = hashlib.sha256()
+    files = sorted(glob.glob(os.path.join(ROOT, "pyvc", "*.py"))) + [os.path.join(ROOT, "checks", f) for f in
+                                                                    ("selftest.py", "selftest_contracts.py", "selftest_src/probes.py")]
+    for f in files:
+        with open(f, "rb") as fh:
+            h.update(fh.read())
+    stamp = os.path.join(ROOT, "out", "selftest-%s.ok" % h.hexdigest()[:16])
+    if os.path.exists(stamp):
+        with open(stamp) as fh:
+            return fh.read().strip()
+    p = subprocess.run([os.path.join(ROOT, "checks", "selftest.py")], capture_output=True, text=True, timeout=1800)
+    last = [l for l in p.stdout.splitlines() if l.startswith("probes:")]
+    if p.returncode != 0 or not last:
+        raise RuntimeError("engine self-test failed (exit %s):\n%s\n%s" % (p.returncode, p.stdout[-3000:], p.stderr[-1000:]))
+    os.makedirs(os.path.dirname(stamp), exist_ok=True)
+    with open(stamp, "w") as fh:
+        fh.write(last[-1])
+    return last[-1]
 
 
 class Run:
@@ -61,6 +86,9 @@ class Run:
     def deductive(self, modules, only=None, jobs=16):
         """verify every contract (in the given contract modules) that serves this property"""
         from pyvc.run import load_registry, verify
+        if not getattr(self, "_selftested", False):
+            self.notes.append("VC generator falsehood " + engine_selftest())
+            self._selftested = True
         reg = load_registry(modules)
         quals = [q for q, c in reg.contracts.items()
                  if not c.assumed and (self.pid in c.props) and (only is None or q in only)]
